@@ -127,4 +127,16 @@ PROPS = {
         trusted=["test validator (rank-induced Select) stands for /pk and /ipns", "scripted MessageSender + simnet + synctest"],
         shards={"quick": 8, "thorough": 16},
     ),
+    "C08": dict(
+        pkg=".", test="TestVerifC08", model="C08", verdict="C08v", level="proof", diff_is_failure=True,
+        accept=lambda m, o: m == "-" or m == "pseq=*" or (" " + m + " ") in (" " + o + " "),
+        rule="a case is a FindProviders / FindProvidersAsync (count 0,1,2,3,K) on a scripted network whose responders name "
+             "overlapping provider sets with and without addresses, optionally local provider records, failing/silent "
+             "peers, an arrival order and optional cancellation; the exact sequence of yielded providers is compared "
+             "with the model replaying the concrete release order (provider shuffle replaced by the identity), and the "
+             "bound / soundness / repeat rules are evaluated on the real sequence; non-trivial = faulty peers and >=3 "
+             "events; distinct = case text",
+        trusted=["scripted MessageSender + simnet + synctest", "the provider shuffle is replaced by the identity in the harness"],
+        shards={"quick": 8, "thorough": 16},
+    ),
 }
